@@ -267,6 +267,33 @@ CHECKS = {
              'its receiver processes the response to it (suspected window F17; monitored on every run, never exhibited; '
              'Legacy/MuxWindow.lean shows what would fail); pipe endpoints stay open while messages are in transit.',
         ref='§5 C18', engine='E3-differential+E4-processes+lean'),
+    'C12': dict(
+        technique='Lean 4 proof (inductive invariant + progress + decreasing measure over an LTS model of the result pipe, collector thread, future and accessors; thread variant) + differential replay of real process/thread histories through the model',
+        text='C12_resolved / C12_resolved_bound / C12_resolved_value (for every outcome, every signal at every child phase and every '
+             'schedule the future is resolved within 13 steps and all seven accessors return), C12_consistent + C12_table_* (one '
+             'table: value, raise, SystemExit mapping, unexpected signal = OSError everywhere + completed wait, SIGTERM), '
+             'C12_order_free / _runs (every answer ever given depends on outcome and kill history only), C12_thread_*. Tie: every '
+             'run executes real mpservice Process/Thread cases (outcome x kill phase x signal x accessor order, kill phases made '
+             'without hooks, plus signals at random moments, in the log-flush window, in the middle of a 30 MB message and under an '
+             'adversarial exit-status schedule; each in a fresh interpreter/session) and replays the observed accessor answers through the model\'s '
+             'own step function (drv procoutcome); a monitor evaluates the property table on every run.',
+        note='Lean 4 kernel + axioms {propext, Classical.choice, Quot.sound}; model hand-written, tied by sampled real runs; OS schedule and '
+             'exact kill moment are sampled, not controlled (partial: the quantifier over interleavings is carried by the theorems only); '
+             'pipe/EOF/exit-status/Future semantics modelled, not verified; requires fixes F13, F15, F28, F30 (fixes/) in /repo to pass.',
+        ref='§5 C12', engine='E4-processes+lean'),
+    'C20': dict(
+        technique='Lean 4 proof (FIFO conservation invariant + progress + decreasing measure over an LTS model of child buffer, feeder, bounded pipe, logger thread, collector and finalizer) + differential replay of real logging runs through the model',
+        text='C20_all_once_in_order / C20_all_handled_at_join / C20_prefix / C20_conservation (handled = the passing records 0..n-1, '
+             'once, in order, complete when join/result return, a prefix at every moment) and C20_child_exits / _bound (for every n '
+             'and pipe capacity K >= 1 some thread can always move until the child has exited and the future is resolved; at most '
+             '3n+18 steps). Tie: every run executes real mpservice Process runs (0 records ... far beyond the pipe buffer, ending '
+             'return/raise/sys.exit, late record from handle_exception, also as a ProcessServlet worker) with a recording handler in '
+             'the parent and replays (n, pass set, capacity, seed) through the model\'s step function under a random scheduler (drv '
+             'logpipe): same handled sequence, same count at join; a monitor evaluates lost/duplicate/order/hang on every run.',
+        note='Lean 4 kernel + axioms {propext, Quot.sound}; model hand-written, tied by sampled real runs; OS schedule sampled, not controlled '
+             '(partial: timing of result delivery vs. log flushing is quantified by the theorems only); pipe capacity abstracted to records; '
+             'multiprocessing.Queue feeder semantics modelled, not verified; requires fixes F15 (+F28) and F29 (fixes/) in /repo to pass.',
+        ref='§5 C20', engine='E4-processes+lean'),
 }
 
 CHECKS['C06'] = dict(
